@@ -1677,6 +1677,18 @@ def m_iter_consume(ex, st, fr, c, a, d, r):
         if kind == "count":
             return ex.finish_call(s, d, r, VInt(len(items), "usize"))
         if kind == "collect":
+            ms = re.search(r"collect::<\s*(?:[\w]+::)*(HashSet|BTreeSet)<", c)
+            if ms:
+                # collecting into a set: a set map over the items' key terms
+                mm = new_map("btree" if ms.group(1) == "BTreeSet" else "hash", SHAPES["()"])
+                srt = None
+                for x in items:
+                    xv = deref_all(s, x)
+                    if isinstance(xv, VSym):
+                        srt = xv.sort if hasattr(xv, "sort") else srt
+                    mm.present = z3.Store(mm.present, key_term(ex, s, x), z3.BoolVal(True))
+                mm.ksort = "H" if "BlobHash" in c[ms.start():ms.start() + 80] else "K"
+                return ex.finish_call(s, d, r, mm)
             return ex.finish_call(s, d, r, VVec(list(items)))
         if kind == "last":
             return ex.finish_call(s, d, r, some(items[-1]) if items else none())
